@@ -272,7 +272,7 @@ IMPLICIT = "no_unexpected_exception"
 class Runner:
     """Explores one query below a decision prefix."""
 
-    def __init__(self, query: Query, shim_ctl, seed=0, timeout_ms=4000, max_viol_per_clause=3):
+    def __init__(self, query: Query, shim_ctl, seed=0, timeout_ms=5000, max_viol_per_clause=3):
         self.q = query
         self.shim_ctl = shim_ctl      # object with .on() / .off()
         self.eng = Engine(seed=seed, timeout_ms=timeout_ms)
